@@ -507,8 +507,9 @@ UnknownIn(M, tv) ==
          ELSE UNION {UnknownIn(SubOf(F), a.mels[key]) : key \in DOMAIN a.mels}
       : i \in DOMAIN M.fields }
 
-\* the plan is inside the quantifier of C08: at most one branch per group that is not null, no null /
-\* unknown list or map elements, at every level
+\* the plan is inside the quantifier of C08: at most one branch per group that is not null, no NULL list or map
+\* elements (unknown ones are inside: "any mix of null, unknown and known at every attribute and nesting level"),
+\* at every level
 RECURSIVE C08Plan(_, _)
 C08Plan(M, tv) ==
   /\ WellFormedObj(M, tv)
@@ -517,10 +518,10 @@ C08Plan(M, tv) ==
         LET F == M.fields[i]
             a == AttrOf(tv, F)
         IN CASE F.kind = "obj" -> C08Plan(SubOf(F), a)
-             [] F.kind = "primlist" /\ Known(a) -> \A j \in DOMAIN a.elems : Known(a.elems[j])
-             [] F.kind = "primmap" /\ Known(a) -> \A key \in DOMAIN a.mels : Known(a.mels[key])
-             [] F.kind = "objlist" /\ Known(a) -> \A j \in DOMAIN a.elems : Known(a.elems[j]) /\ C08Plan(SubOf(F), a.elems[j])
-             [] F.kind = "objmap" /\ Known(a) -> \A key \in DOMAIN a.mels : Known(a.mels[key]) /\ C08Plan(SubOf(F), a.mels[key])
+             [] F.kind = "primlist" /\ Known(a) -> \A j \in DOMAIN a.elems : ~a.elems[j].null
+             [] F.kind = "primmap" /\ Known(a) -> \A key \in DOMAIN a.mels : ~a.mels[key].null
+             [] F.kind = "objlist" /\ Known(a) -> \A j \in DOMAIN a.elems : ~a.elems[j].null /\ (Known(a.elems[j]) => C08Plan(SubOf(F), a.elems[j]))
+             [] F.kind = "objmap" /\ Known(a) -> \A key \in DOMAIN a.mels : ~a.mels[key].null /\ (Known(a.mels[key]) => C08Plan(SubOf(F), a.mels[key]))
              [] OTHER -> TRUE)
 
 \* attributes outside list / map elements: known in the plan (null or not) => unchanged; known collections
